@@ -6,7 +6,7 @@ Spec ids are creation ranks 1..n; spec times are small integers k, concretised a
 """
 from __future__ import annotations
 
-CONCS = ("int", "float", "dur", "mixed")
+CONCS = ("int", "float", "dur", "mixed", "near", "bigint")
 
 
 class _Target:
@@ -19,6 +19,10 @@ def make_time(k: int, conc: str, n: int = 0):
         return int(k)
     if conc == "float":
         return k / 4.0
+    if conc == "near":      # distinct times that differ by ~1e-10 relative (exact dyadics)
+        return 1.0e7 + k * 2.0 ** -10
+    if conc == "bigint":
+        return 10 ** 15 + int(k)
     from pydsol.core.units import Duration
     if conc == "dur":
         return Duration(k / 4.0, "s")
